@@ -6,8 +6,9 @@ CONSTANTS
   Funder = "s0"
   InitialUnits <- mcInitialUnits
   McOps <- Ops
+  SimOps <- ReducedOps
   Record = TRUE
-  Weight = 12
+  Weight = 4
   Depth = 8
 INVARIANTS
   DumpHist
